@@ -91,13 +91,14 @@ Print Assumptions C06_riccati_scalar_limit_solves_partial.
 
 (* hypotheses are satisfiable: a = b = r = 1, q = 1/2, n = 0 has the rational solution x = 1 *)
 Example riccati_scalar_example :
-  (exists AGH0 AGH3, ricc_init 1 1 (1#2) [[1]] [[1]] [[1#2]] [[1]] [[0]] = Some AGH0 /\
-                     ricc_iter 3 1 AGH0 = Some AGH3) /\
+  (match ricc_init 1 1 (1#2) [[1]] [[1]] [[1#2]] [[1]] [[0]] with
+   | Some AGH0 => ricc_iter 3 1 AGH0
+   | None => None
+   end) <> None /\
   ~ 1 + 1 * 1 * 1 == 0 /\
   1 * 1 * 1 - (0 + 1 * 1 * 1) * (0 + 1 * 1 * 1) / (1 + 1 * 1 * 1) + (1#2) - 1 == 0.
 Proof.
-  split; [|split; [discriminate|reflexivity]].
-  eexists. eexists. split; vm_compute; reflexivity.
+  split; [vm_compute; discriminate|split; [discriminate|reflexivity]].
 Qed.
 
 (* general dimension: stated, NOT proved (needs the push-through identities for (I + G Y)^-1);
